@@ -41,3 +41,24 @@ def abstract(f):
     """marks a spec function that tier P treats as uninterpreted (its axioms are declared in
     the sidecar and listed as assumptions); the body is the native definition"""
     return f
+
+
+def narrow(x, cname):
+    """spec-level view of a value as an instance of a subclass (guarded by isinstance_* in the clause)"""
+    return x
+
+
+class _IsInstance:
+    def __getattr__(self, name):
+        raise AttributeError(name)
+
+
+def _make_isinstance(cname):
+    def f(x):
+        return type(x).__name__ == cname or any(t.__name__ == cname for t in type(x).__mro__)
+
+    return f
+
+
+for _c in ("ReplaceStep", "ReplaceAroundStep", "AddMarkStep", "RemoveMarkStep", "AddNodeMarkStep", "RemoveNodeMarkStep", "AttrStep", "DocAttrStep", "TextNode"):
+    globals()["isinstance_" + _c] = _make_isinstance(_c)
